@@ -39,7 +39,9 @@ FLOOR_MUTATORS = 6
 FLOOR_PAIRS = 14
 
 
-def run(rep: Report) -> None:
+def run(rep: Report, only=None) -> None:
+    """only: restrict the pairing rules to these cached lookups (used by the checks of
+    properties that *depend* on fresh lookups, e.g. validation)."""
     prog = rep.prog
     nm = NetModel(prog)
     rel = nm.mi.relpath
@@ -61,8 +63,15 @@ def run(rep: Report) -> None:
     reads = {}
     for p in nm.cached:
         reads[p] = nm.reads(p)
+    if only is not None:
+        missing = set(only) - set(nm.cached) - set(nm.props)
+        if missing:
+            raise AnalysisError(f"anchor vanished: Network lookups {sorted(missing)}")
+        reads_all = reads
+        reads = {p: r for p, r in reads.items() if p in only}
     rep.analysed["cached_lookups"] = {p: sorted(r) for p, r in reads.items()}
-    rep.floor("cached lookups", len(nm.cached), FLOOR_CACHED)
+    if only is None:
+        rep.floor("cached lookups", len(nm.cached), FLOOR_CACHED)
 
     mutators = {m: e for m, e in nm.effects.items() if e.writes}
     rep.analysed["mutators"] = {
@@ -71,7 +80,8 @@ def run(rep: Report) -> None:
     rep.analysed["invalidation_lists"] = {
         m: e.invalidates for m, e in nm.effects.items() if e.invalidates is not None
     }
-    rep.floor("methods with direct graph writes", len(mutators), FLOOR_MUTATORS)
+    if only is None:
+        rep.floor("methods with direct graph writes", len(mutators), FLOOR_MUTATORS)
 
     # -------------------------------------------------- R1 coverage (+R2)
     npairs = 0
@@ -97,7 +107,10 @@ def run(rep: Report) -> None:
                 f"{sorted(inval) if e.invalidates is not None else '(method is undecorated)'}",
                 key=f"R1|{m}|{p}",
             )
-    rep.floor("(mutator, cached lookup) pairs", npairs, FLOOR_PAIRS)
+    if only is None:
+        rep.floor("(mutator, cached lookup) pairs", npairs, FLOOR_PAIRS)
+    else:
+        rep.floor("(mutator, cached lookup) pairs for the lookups this property relies on", npairs, 2)
 
     # R2: graph writes from outside the Network class
     nsites = 0
@@ -161,7 +174,7 @@ def run(rep: Report) -> None:
                 key=f"R4|{m}|{p}",
             )
     # stores from other modules: <net>.<cached>[...] = / .update(...)
-    cached_nonview = {p for p in nm.cached if reads[p] != {GRAPHOBJ}}
+    cached_nonview = {p for p in reads if reads[p] != {GRAPHOBJ}}
     for mi in prog.modules.values():
         for n in ast.walk(mi.tree):
             tgt = None
@@ -202,6 +215,8 @@ def run(rep: Report) -> None:
 
     # ---------------------------------------- R5 the decorator does its job
     _check_decorator(rep, prog)
+    if only is not None:
+        return
     # R5d: decoration sites name cached lookups of the same class defined earlier
     for m, e in sorted(nm.effects.items()):
         if e.invalidates is None:
@@ -290,347 +305,87 @@ def _inside_class(mi, node, clsname: str) -> bool:
 
 # ------------------------------------------------------------------- R5
 def _check_decorator(rep: Report, prog) -> None:
-    mi = prog.module("sym_metanet.util.funcs")
+    """Interpret `invalidate_cache` abstractly: for k = 1..3 cached properties and every
+    subset of them being present in the instance __dict__, the wrapped method must be
+    called exactly once, with the caller's arguments, at a moment when none of the k
+    entries is present any more, and its result must be returned."""
+    import itertools
+
+    from ..interp import Builtin, FuncV, Interp, Obj, Raised
+    from ..primcheck import PrimWorld
+
     fi = prog.function("sym_metanet.util.funcs", "invalidate_cache")
-    rel = mi.relpath
-    fn = fi.node
-    set_parents(fn)
-    # (c) classification: every cached_property among the callables is collected
-    coll_name = None
-    for n in ast.walk(fn):
-        if (
-            isinstance(n, ast.If)
-            and isinstance(n.test, ast.Call)
-            and dotted_name(n.test.func) == "isinstance"
-            and len(n.test.args) == 2
-            and dotted_name(n.test.args[1]) == "cached_property"
-        ):
-            for s in n.body:
-                if (
-                    isinstance(s, ast.Expr)
-                    and isinstance(s.value, ast.Call)
-                    and isinstance(s.value.func, ast.Attribute)
-                    and s.value.func.attr == "append"
-                    and dotted_name(s.value.args[0]) == dotted_name(n.test.args[0])
-                ):
-                    loop = parent(n)
-                    if (
-                        isinstance(loop, ast.For)
-                        and dotted_name(loop.iter) == (fn.args.vararg.arg if fn.args.vararg else None)
-                        and dotted_name(loop.target) == dotted_name(n.test.args[0])
-                    ):
-                        coll_name = dotted_name(s.value.func.value)
-    rep.check(
-        coll_name is not None,
-        "R5c-collect",
-        "every cached_property passed to invalidate_cache is collected",
-        f"{rel}:{fn.lineno} invalidate_cache",
-        "could not find `for p in callables: if isinstance(p, cached_property): <list>.append(p)`",
-        key="R5c",
-    )
-    if coll_name is None:
-        return
-    # other mutations of the collection (slicing it away, popping) are not allowed
-    for n in ast.walk(fn):
-        if isinstance(n, ast.Assign):
-            for t in n.targets:
-                if dotted_name(t) == coll_name and not (
-                    isinstance(n.value, ast.List) and not n.value.elts
-                ):
-                    rep.refuted(
-                        "R5c-collect",
-                        f"collection `{coll_name}` reassigned",
-                        f"{rel}:{n.lineno} invalidate_cache",
-                        short(n),
-                        key="R5c|reassign",
-                    )
-        if (
-            isinstance(n, ast.Call)
-            and isinstance(n.func, ast.Attribute)
-            and dotted_name(n.func.value) == coll_name
-            and n.func.attr in ("pop", "remove", "clear", "insert")
-        ):
-            rep.refuted(
-                "R5c-collect",
-                f"collection `{coll_name}` mutated",
-                f"{rel}:{n.lineno} invalidate_cache",
-                short(n),
-                key="R5c|mutate",
-            )
+    mi = prog.module("sym_metanet.util.funcs")
+    where = f"{mi.relpath}:{fi.node.lineno} invalidate_cache"
 
-    # length variable(s): N = len(coll)
-    len_vars = set()
-    for n in ast.walk(fn):
-        if (
-            isinstance(n, ast.Assign)
-            and isinstance(n.value, ast.Call)
-            and dotted_name(n.value.func) == "len"
-            and dotted_name(n.value.args[0]) == coll_name
-        ):
-            for t in n.targets:
-                if isinstance(t, ast.Name):
-                    len_vars.add(t.id)
+    class Recorder:
+        def __init__(self):
+            self.calls = []
 
-    # (b) every definition of the invalidator deletes __dict__[prop.attrname] for
-    #     every collected prop
-    inv_defs = []
-    wrapper = None
-    for n in ast.walk(fn):
-        if isinstance(n, ast.FunctionDef) and n is not fn:
-            if _deletes_dict_entry(n):
-                inv_defs.append(n)
-            if any(
-                isinstance(c, ast.Call) and _is_star_call(c) for c in ast.walk(n)
-            ) and any(
-                isinstance(d, ast.Call) and dotted_name(d.func) == "wraps"
-                for d in n.decorator_list
-            ):
-                wrapper = n
-    rep.floor("invalidator definitions in invalidate_cache", len(inv_defs), 1)
-    inv_names = {d.name for d in inv_defs}
-    for d in inv_defs:
-        ok, why = _invalidator_covers_all(d, coll_name, len_vars, fn)
-        rep.check(
-            ok,
-            "R5b-invalidator",
-            f"invalidator `{d.name}` (line arm {d.lineno - fn.lineno}) deletes every collected property",
-            f"{rel}:{d.lineno} invalidate_cache.{d.name}",
-            why,
-            key=f"R5b|{_arm_key(d)}",
-        )
-    # (a) order in wrapper: invalidation precedes func(*args, **kwargs) on every path
-    if wrapper is None:
-        rep.refuted(
-            "R5a-order",
-            "wrapper not found",
-            f"{rel}:{fn.lineno} invalidate_cache",
-            "no @wraps-decorated inner function calling func(*args, **kwargs)",
-            key="R5a|nowrapper",
-        )
-        return
-    set_parents(wrapper)
-    func_calls = [c for c in ast.walk(wrapper) if isinstance(c, ast.Call) and _is_star_call(c)]
-    inv_calls = [
-        c
-        for c in ast.walk(wrapper)
-        if isinstance(c, ast.Call) and dotted_name(c.func) in inv_names
-    ]
-    ok = bool(func_calls) and bool(inv_calls)
-    why = ""
-    if not ok:
-        why = "wrapper does not call both the invalidator and the wrapped function"
-    else:
-        fc = min(func_calls, key=lambda c: (c.lineno, c.col_offset))
-        for ic in inv_calls:
-            if (ic.lineno, ic.col_offset) > (fc.lineno, fc.col_offset):
-                ok, why = False, "the invalidator is called after the wrapped function"
-        # the invalidator call must receive args[0] and be guarded only by
-        # `<invalidator> is not None` / `args`
-        for ic in inv_calls:
-            if not (len(ic.args) == 1 and text(ic.args[0]) == "args[0]"):
-                ok, why = False, f"invalidator called with {text(ic)} rather than args[0]"
-            g = ic
-            while g is not wrapper:
-                p = parent(g)
-                if isinstance(p, ast.If) and g in p.body:
-                    for atom in _conj_atoms(p.test):
-                        t = text(atom)
-                        if t not in (f"{dotted_name(ic.func)} is not None", "args"):
-                            ok, why = False, f"invalidation guarded by `{t}`"
-                elif isinstance(p, ast.If) and g in p.orelse:
-                    ok, why = False, "invalidation in an else branch"
-                elif isinstance(p, (ast.For, ast.While, ast.Try)):
-                    ok, why = False, f"invalidation inside {type(p).__name__}"
-                g = p
-        # the wrapped call must not be inside a branch that skips invalidation:
-        # both are required to be top-level statements (or if-guarded invalidation)
-        g = fc
-        while g is not wrapper:
-            p = parent(g)
-            if isinstance(p, (ast.If, ast.For, ast.While)):
-                ok, why = False, "wrapped function call is conditional"
-            g = p
-    rep.check(
-        ok,
-        "R5a-order",
-        "wrapper invalidates (args[0]) before calling the wrapped method on every path",
-        f"{rel}:{wrapper.lineno} invalidate_cache.wrapper",
-        why,
-        key="R5a",
-    )
-    # the arms must be selected by exhaustive tests on the length
-    # (Ncp == 0 -> None ; Ncp == 1 -> single ; else -> loop) : a None arm for Ncp != 0
-    for n in ast.walk(fn):
-        if isinstance(n, ast.If) and isinstance(n.test, ast.Compare):
-            l = n.test.left
-            if isinstance(l, ast.Name) and l.id in len_vars:
-                for s in n.body:
-                    if (
-                        isinstance(s, ast.Assign)
-                        and any(dotted_name(t) in inv_names for t in s.targets)
-                        and isinstance(s.value, ast.Constant)
-                        and s.value.value is None
-                    ):
-                        ok0 = (
-                            isinstance(n.test.ops[0], ast.Eq)
-                            and isinstance(n.test.comparators[0], ast.Constant)
-                            and n.test.comparators[0].value == 0
-                        )
-                        rep.check(
-                            ok0,
-                            "R5b-invalidator",
-                            "no-op arm selected only when no cached property was passed",
-                            f"{rel}:{n.lineno} invalidate_cache",
-                            f"invalidator disabled under `{text(n.test)}`",
-                            key="R5b|noop-arm",
-                        )
+    class DW(PrimWorld):
+        def __init__(self):
+            super().__init__(False)
+            self.rec = Recorder()
+            self.inst = None
 
+        def isinstance_ext(self, it, o, k, node):
+            return k.name.endswith("cached_property") and isinstance(o, Obj) and o.kind == "cachedprop"
 
-def _arm_key(d: ast.FunctionDef) -> str:
-    return "loop" if any(isinstance(x, ast.For) for x in ast.walk(d)) else "single"
+        def call_value(self, it, f, args, kwargs, node):
+            if isinstance(f, Recorder):
+                f.calls.append((tuple(args), dict(kwargs), dict(self.inst.attrs["__dict__"])))
+                return "RESULT"
+            return NotImplemented
 
+        def call_ext(self, it, name, args, kwargs, node):
+            if name.endswith("functools.wraps") or name == "functools.wraps":
+                return Builtin("<wraps>")
+            return NotImplemented
 
-def _is_star_call(c: ast.Call) -> bool:
-    return (
-        isinstance(c.func, ast.Name)
-        and c.func.id == "func"
-        and any(isinstance(a, ast.Starred) for a in c.args)
-    )
+        def on_container_mutation(self, it, c, node, how):
+            return None
 
-
-def _conj_atoms(t: ast.AST):
-    if isinstance(t, ast.BoolOp) and isinstance(t.op, ast.And):
-        for v in t.values:
-            yield from _conj_atoms(v)
-    else:
-        yield t
-
-
-def _deletes_dict_entry(fn: ast.FunctionDef) -> bool:
-    for n in ast.walk(fn):
-        if isinstance(n, ast.Delete):
-            for t in n.targets:
-                if isinstance(t, ast.Subscript) and (dotted_name(t.value) or "").endswith("__dict__"):
-                    return True
-        if (
-            isinstance(n, ast.Call)
-            and isinstance(n.func, ast.Attribute)
-            and n.func.attr == "pop"
-            and (dotted_name(n.func.value) or "").endswith("__dict__")
-        ):
-            return True
-    return False
-
-
-def _invalidator_covers_all(d: ast.FunctionDef, coll: str, len_vars: set, outer) -> tuple:
-    """The deleted key must be `<prop>.attrname` where <prop> ranges over the whole
-    collection: a for-loop over `coll`, or `coll[0]` in the arm where len == 1."""
-    set_parents(d)
-    selfname = d.args.args[0].arg if d.args.args else None
-    dels = []
-    for n in ast.walk(d):
-        if isinstance(n, ast.Delete):
-            for t in n.targets:
-                if isinstance(t, ast.Subscript) and dotted_name(t.value) == f"{selfname}.__dict__":
-                    dels.append((n, t.slice))
-        if (
-            isinstance(n, ast.Call)
-            and isinstance(n.func, ast.Attribute)
-            and n.func.attr == "pop"
-            and dotted_name(n.func.value) == f"{selfname}.__dict__"
-        ):
-            dels.append((n, n.args[0]))
-    if not dels:
-        return False, "no deletion from the instance __dict__"
-    for stmt, key in dels:
-        # resolve key -> `<prop>.attrname`
-        kexpr = key
-        if isinstance(kexpr, ast.Name):
-            kexpr = _local_def(d, kexpr.id) or kexpr
-        if not (isinstance(kexpr, ast.Attribute) and kexpr.attr == "attrname"):
-            return False, f"deleted key `{text(key)}` is not a cached property's attrname"
-        prop = kexpr.value
-        if not isinstance(prop, ast.Name):
-            return False, f"unrecognised property expression `{text(prop)}`"
-        # loop variable over the whole collection?
-        loop = None
-        g = stmt
-        while g is not d:
-            g = parent(g)
-            if isinstance(g, ast.For) and dotted_name(g.target) == prop.id:
-                loop = g
-                break
-        if loop is not None:
-            if dotted_name(loop.iter) != coll:
-                return False, f"loop ranges over `{text(loop.iter)}`, not all of `{coll}`"
-            # deletion may only be guarded by the membership test of the same key
-            g = stmt
-            while g is not loop:
-                p = parent(g)
-                if isinstance(p, ast.If):
-                    t = text(p.test)
-                    if t != f"{text(key)} in {selfname}.__dict__":
-                        return False, f"deletion guarded by `{t}`"
-                    if g not in p.body:
-                        return False, "deletion in else branch"
-                elif isinstance(p, (ast.Try,)):
-                    pass
-                g = p
-            for n in ast.walk(loop):
-                if isinstance(n, (ast.Break, ast.Continue, ast.Return)):
-                    return False, "loop may skip properties (break/continue/return)"
-            continue
-        # single arm: prop = coll[0] defined in the enclosing scope under len == 1
-        definition = None
-        arm = None
-        for n in ast.walk(outer):
-            if isinstance(n, ast.Assign) and any(dotted_name(t) == prop.id for t in n.targets):
-                if n.lineno < d.lineno:
-                    definition, arm = n, parent(n)
-        if definition is None:
-            return False, f"`{prop.id}` is not bound to an element of `{coll}`"
-        v = definition.value
-        if not (
-            isinstance(v, ast.Subscript)
-            and dotted_name(v.value) == coll
-            and isinstance(v.slice, (ast.Constant, ast.UnaryOp))
-        ):
-            return False, f"`{prop.id} = {text(v)}` is not an element of `{coll}`"
-        # must sit in an arm where len(coll) == 1
-        g = definition
-        found = False
-        while g is not outer:
-            p = parent(g)
-            if isinstance(p, ast.If) and isinstance(p.test, ast.Compare):
-                t = p.test
-                if (
-                    isinstance(t.left, ast.Name)
-                    and t.left.id in len_vars
-                    and isinstance(t.ops[0], ast.Eq)
-                    and isinstance(t.comparators[0], ast.Constant)
-                    and t.comparators[0].value == 1
-                    and g in p.body
-                ):
-                    found = True
-            g = p
-        if not found:
-            return False, "single-property invalidator used outside the `len == 1` arm"
-        g = stmt
-        while g is not d:
-            p = parent(g)
-            if isinstance(p, ast.If):
-                t = text(p.test)
-                if t != f"{text(key)} in {selfname}.__dict__":
-                    return False, f"deletion guarded by `{t}`"
-            g = p
-    return True, ""
-
-
-def _local_def(fn: ast.FunctionDef, name: str):
-    for n in ast.walk(fn):
-        if isinstance(n, ast.Assign) and any(dotted_name(t) == name for t in n.targets):
-            return n.value
-    return None
+    n = 0
+    for k in (1, 2, 3):
+        names = [f"prop{i}" for i in range(k)]
+        for present in itertools.chain.from_iterable(itertools.combinations(names, r) for r in range(k + 1)):
+            n += 1
+            w = DW()
+            it = Interp(prog, w)
+            props = [Obj("functools:cached_property", nm, {"attrname": nm}, kind="cachedprop") for nm in names]
+            inst = Obj("sym_metanet.network:Network", "instance", {}, kind="instance")
+            inst.attrs["__dict__"] = {nm: f"cached-{nm}" for nm in present}
+            inst.attrs["__dict__"]["_graph"] = "graph"
+            w.inst = inst
+            label = f"{k} cached propert{'y' if k == 1 else 'ies'}, present before the call: {list(present) or 'none'}"
+            try:
+                deco = it.call_function(FuncV(fi), props, {})
+                wrapper = it.call(deco, [w.rec], {}, fi.node, None)
+                res = it.call(wrapper, [inst, "a1"], {"kw": "v"}, fi.node, None)
+            except Raised as e:
+                rep.refuted("R5-decorator", label, where,
+                            f"the invalidating wrapper raises {e.exc} ({e.msg})", key=f"R5|raise|{e.exc}")
+                continue
+            calls = w.rec.calls
+            ok = len(calls) == 1
+            why = ""
+            if not ok:
+                why = f"wrapped method called {len(calls)} times"
+            else:
+                a, kw, snap = calls[0]
+                stale = [nm for nm in names if nm in snap]
+                if stale:
+                    ok, why = False, (f"cached entr{'y' if len(stale) == 1 else 'ies'} {stale} still present "
+                                      "when the wrapped method runs")
+                elif a != (inst, "a1") or kw != {"kw": "v"}:
+                    ok, why = False, "arguments are not forwarded unchanged"
+                elif snap.get("_graph") != "graph":
+                    ok, why = False, "unrelated instance state removed"
+                elif res != "RESULT":
+                    ok, why = False, "the wrapped method's result is not returned"
+            rep.check(ok, "R5-decorator", label, where, why,
+                      key=f"R5|k={k}|present={','.join(present) or '-'}")
+    rep.floor("decorator scenarios", n, 14)
 
 
 # ------------------------------------------------------------------ SIG
